@@ -419,3 +419,41 @@ uint64_t X_fread(void *ptr, uint64_t size, uint64_t n, void *f)
   return size ? give / size : 0;
 }
 uint32_t X_ferror(void *f) { (void)f; return vfz_err; }
+void X_free(void *p) { free(p); }
+void *X_strdup(void *s) { uint64_t n = X_strlen(s) + 1; void *p = vf_alloc(n); memcpy(p, s, (size_t)n); return p; }
+void X__ZNSt7__cxx1112basic_stringIcSt11char_traitsIcESaIcEE12_M_constructEmc(void *s, uint64_t n, uint8_t c)
+{
+  if (n > 15) {
+    uint64_t cap = n;
+    uint8_t *r = (uint8_t *)X__ZNSt7__cxx1112basic_stringIcSt11char_traitsIcESaIcEE9_M_createERmm(s, &cap, 0);
+    if (vf_eh_pending) return;
+    STR_P(s) = r; STR_CAP(s) = cap;
+  }
+  if (n) memset(STR_P(s), c, (size_t)n);
+  str_set_length(s, n);
+}
+void *X__ZNSt7__cxx1112basic_stringIcSt11char_traitsIcESaIcEEaSEOS4_(void *s, void *o)
+{
+  if (s == o) return s;
+  if (str_is_local(o)) {
+    uint64_t n = STR_LEN(o);
+    if (n) memcpy(STR_P(s), STR_P(o), (size_t)n);      /* capacity of s is at least 15 >= n */
+    str_set_length(s, n);
+  } else {
+    uint8_t *old = str_is_local(s) ? 0 : STR_P(s);
+    uint64_t oldcap = old ? STR_CAP(s) : 0;
+    STR_P(s) = STR_P(o); STR_LEN(s) = STR_LEN(o); STR_CAP(s) = STR_CAP(o);
+    if (old) { STR_P(o) = old; STR_CAP(o) = oldcap; } else STR_P(o) = STR_LOCAL(o);
+  }
+  str_set_length(o, 0);
+  return s;
+}
+void *X__ZNSt7__cxx1112basic_stringIcSt11char_traitsIcESaIcEEaSEPKc(void *s, void *c)
+{
+  return X__ZNSt7__cxx1112basic_stringIcSt11char_traitsIcESaIcEE10_M_replaceEmmPKcm(s, 0, STR_LEN(s), c, X_strlen(c));
+}
+uint64_t X_div(uint32_t a, uint32_t b)
+{
+  int32_t q = (int32_t)a / (int32_t)b, r = (int32_t)a % (int32_t)b;
+  return (uint64_t)(uint32_t)q | ((uint64_t)(uint32_t)r << 32);
+}
